@@ -584,6 +584,11 @@ Definition tregistered (ops : list top) : list tent := snd (tregs_run ops).
 Definition abs_types (s : tstate) : list (tkind * nat * name) :=
   map (fun e => (fst (snd e), snd (snd e), fst e)) (ts_types s).
 
+(* registered extensions of message m / registered types of kind k, in registration order *)
+Definition is_ext_of (m : name) (e : tent) : bool := tkind_eqb (te_kind e) TExt && name_eqb (te_ext e) m.
+Definition ext_filter (rs : list tent) (m : name) : list tent := filter (is_ext_of m) rs.
+Definition kind_filter (rs : list tent) (k : tkind) : list tent := filter (fun e => tkind_eqb (te_kind e) k) rs.
+
 Definition name_taken (rs : list tent) (n : name) : Prop := exists e, In e rs /\ te_name e = n.
 Definition extnum_taken (rs : list tent) (m : name) (num : N) : Prop :=
   exists e, In e rs /\ te_kind e = TExt /\ te_ext e = m /\ te_num e = num.
